@@ -157,8 +157,56 @@ func timerDiscipline(p *Prog, r *Report, R string, filter func(rel string) bool)
 							stops[k] = map[string][]string{}
 						}
 						stops[k][home] = append(stops[k][home], p.InstrPos(in))
-						if row := rows[k]; row != nil && row.teardown == home {
-							tdStops[k] = append(tdStops[k], tdStop{fn, in})
+						if row := rows[k]; row != nil {
+							if row.teardown == home {
+								tdStops[k] = append(tdStops[k], tdStop{fn, in})
+							} else if hs := p.callersWithin(home, map[string]bool{row.teardown: true}); len(hs) == 1 {
+								// the tear-down's body moved into a private helper
+								tdStops[k] = append(tdStops[k], tdStop{fn, in})
+							}
+						}
+					}
+				}
+			}
+			// `stopTimer(&c.resendTimer)`: a private helper that is handed the address of the
+			// timer field does to that field what it does to *its parameter
+			if c := CallOf(in); c != nil && !c.IsInvoke() {
+				if sc := c.StaticCallee(); sc != nil && p.moduleFunc(sc) && sc.Blocks != nil {
+					for ai, a := range c.Args {
+						fa, ok := a.(*ssa.FieldAddr)
+						if !ok || ai >= len(sc.Params) {
+							continue
+						}
+						pt, ok := fa.Type().(*types.Pointer)
+						if !ok || !isTimerPtr(pt.Elem()) {
+							continue
+						}
+						k := fieldKeyOf(fa)
+						st, cl, ar, condOK := timerParamEffects(p, sc, sc.Params[ai])
+						if st {
+							if stops[k] == nil {
+								stops[k] = map[string][]string{}
+							}
+							stops[k][home] = append(stops[k][home], p.InstrPos(in))
+							if row := rows[k]; row != nil && row.teardown == home {
+								if condOK {
+									tdStops[k] = append(tdStops[k], tdStop{fn, in})
+								} else {
+									r.Bad(R, k+"/teardown-stop-helper", p.InstrPos(in), "the helper "+sc.Name()+" stops the timer it is handed only under a condition other than 'it is set'")
+								}
+							}
+						}
+						if cl {
+							if clears[k] == nil {
+								clears[k] = map[string][]string{}
+							}
+							clears[k][home] = append(clears[k][home], p.InstrPos(in))
+						}
+						if ar {
+							if stores[k] == nil {
+								stores[k] = map[string][]string{}
+							}
+							stores[k][home] = append(stores[k][home], p.InstrPos(in))
 						}
 					}
 				}
@@ -260,6 +308,41 @@ func timerDiscipline(p *Prog, r *Report, R string, filter func(rel string) bool)
 				}
 				return false
 			})
+			// a Stop that lives in a private helper: the helper is called on every path too
+			if okAll && p.FuncName(p.closureHome(ts.fn)) != row.teardown {
+				nsite := 0
+				if node := p.CG().Nodes[p.closureHome(ts.fn)]; node != nil {
+					for _, ed := range node.In {
+						if ed.Site == nil || !p.moduleFunc(ed.Caller.Func) {
+							continue
+						}
+						nsite++
+						extra := ""
+						for _, g := range p.GuardStrings(ed.Site) {
+							if !(strings.HasPrefix(g, "!") && strings.HasSuffix(g, ".closed")) && !strings.HasSuffix(g, "."+fld+" != nil") {
+								extra = g
+							}
+						}
+						if extra != "" {
+							okAll, where = false, p.InstrPos(ed.Site)+" (the helper that stops it is called only under "+extra+")"
+							continue
+						}
+						if o, w := p.everyPathOr(ed.Site.Block(), func(ret *ssa.Return) bool {
+							for _, g := range p.GuardStrings(ret) {
+								if strings.HasSuffix(g, ".closed") && !strings.HasPrefix(g, "!") {
+									return true
+								}
+							}
+							return false
+						}); !o {
+							okAll, where = false, w
+						}
+					}
+				}
+				if nsite == 0 {
+					okAll, where = false, "(no call of the helper found)"
+				}
+			}
 			r.Check(okAll, R, key, p.InstrPos(ts.in), "stopped whenever it is set, on every path of the tear-down", "a path through the tear-down function returns at "+where+" without reaching the Stop of "+fld)
 		}
 	}
@@ -732,4 +815,68 @@ func completeReadFatal(p *Prog, r *Report, R string, filter func(rel string) boo
 func isErrorType(t types.Type) bool {
 	n, ok := t.(*types.Named)
 	return ok && n.Obj().Name() == "error" && n.Obj().Pkg() == nil
+}
+
+// timerParamEffects: what a private helper does to the *time.Timer variable whose address it
+// receives in par: stops it, clears it, arms it; condOK: the Stop is conditional on nothing but
+// the timer being set.
+func timerParamEffects(p *Prog, fn *ssa.Function, par *ssa.Parameter) (stops, clears, arms, condOK bool) {
+	condOK = true
+	EachInstr(fn, func(in ssa.Instruction) {
+		if c := CallOf(in); c != nil && !c.IsInvoke() {
+			if sc := c.StaticCallee(); sc != nil && sc.Name() == "Stop" && len(c.Args) >= 1 && isTimerPtr(c.Args[0].Type()) {
+				if u, ok := c.Args[0].(*ssa.UnOp); ok && u.Op == token.MUL && u.X == ssa.Value(par) {
+					stops = true
+					for _, a := range p.GuardsOf(in.Block()) {
+						okG := false
+						if bo, isB := a.Cond.(*ssa.BinOp); isB && (bo.Op == token.NEQ && a.Pol || bo.Op == token.EQL && !a.Pol) {
+							for _, side := range []ssa.Value{bo.X, bo.Y} {
+								if u2, isU := side.(*ssa.UnOp); isU && u2.Op == token.MUL && u2.X == ssa.Value(par) {
+									okG = true
+								}
+							}
+						}
+						if !okG {
+							condOK = false
+						}
+					}
+					if !everyPathModuloNil(in, par) {
+						condOK = false
+					}
+				}
+			}
+		}
+		if st, ok := in.(*ssa.Store); ok && st.Addr == ssa.Value(par) {
+			if c, isC := st.Val.(*ssa.Const); isC && c.Value == nil {
+				clears = true
+			} else {
+				arms = true
+			}
+		}
+	})
+	return
+}
+
+// everyPathModuloNil: every path through the helper reaches the Stop or the failing side of
+// the nil test that guards it.
+func everyPathModuloNil(stop ssa.Instruction, par *ssa.Parameter) bool {
+	fn := stop.Parent()
+	target := stop.Block()
+	// the block that tests *par != nil
+	for _, b := range fn.Blocks {
+		iff, ok := b.Instrs[len(b.Instrs)-1].(*ssa.If)
+		if !ok {
+			continue
+		}
+		if bo, isB := iff.Cond.(*ssa.BinOp); isB {
+			for _, side := range []ssa.Value{bo.X, bo.Y} {
+				if u2, isU := side.(*ssa.UnOp); isU && u2.Op == token.MUL && u2.X == ssa.Value(par) {
+					if b.Dominates(target) {
+						target = b
+					}
+				}
+			}
+		}
+	}
+	return everyPath(target.Instrs[len(target.Instrs)-1])
 }
